@@ -133,8 +133,12 @@ def run_case(case):
     check_marginals(out, 'bp', model, mu, P, attrs, float(total))
 
     if out.ok:
+        held = {cl: np.array(mu[cl].values, dtype=float).copy() for cl in model.cliques}
         lz = model.belief_propagation(pot, logZ=True)
-        if not np.isfinite(lz) or abs(float(lz) - z) > 1e-9 * abs(z) + 1e-7:
+        for cl in model.cliques:
+            if not np.array_equal(np.asarray(mu[cl].values, dtype=float), held[cl], equal_nan=True):
+                out.fail('result_changed_by_later_call', 'the marginals returned by belief_propagation changed when belief_propagation was called again (clique %s)' % (cl,)); break
+        if out.ok and (not np.isfinite(lz) or abs(float(lz) - z) > 1e-9 * abs(z) + 1e-7):
             out.fail('mismatch:logZ', 'logZ got %r ref %r' % (lz, z))
 
     # (a) a different elimination order gives the same distribution
